@@ -109,11 +109,8 @@ func processCalcJcc(env *Pass1, operands []ast.Exp, instName string) {
 		if factor, ok := op.Factor.(*ast.IdentFactor); ok && factor.Value != "$" {
 			label := factor.Value
 			log.Printf("[pass1] Case 3a: Processing label '%s' for %s", label, instName)
-			// ラベルが存在しない場合はプレースホルダーを追加します
-			if _, exists := env.SymTable[label]; !exists {
-				log.Printf("debug: [processCalcJcc] Label '%s' not found in SymTable yet. Adding placeholder.", label)
-				env.SymTable[label] = 0 // プレースホルダーアドレス
-			}
+			// (前方参照のラベルは pass2 のテンプレート展開で解決される。ここでプレースホルダー 0 を登録すると
+			//  未定義ラベルへのジャンプや後続の DW/DD 参照が黙ってアドレス 0 になるため、登録しない)
 			estimatedSize = estimateJumpSize(instName, env.BitMode)
 			ocode = fmt.Sprintf("%s {{.%s}}", instName, label) // ラベルプレースホルダー
 		} else {
